@@ -23,3 +23,11 @@ package gateway
 //@   ensures l != nil
 //@ trusted func (github.com/hydraide/hydraide/app/core/zeus.Zeus).GetSafeops(z) (s)
 //@   ensures s != nil
+
+// Wire conversion (property C30): the response reports an expiry exactly when the record has
+// one (ExpirationTime != 0, the engine-wide meaning of "has an expiry").
+//@ func treasureToKeyValuePair(treasureInterface, t)
+//@   property C30
+//@   requires[args] treasureInterface != nil && t != nil && t.ExpiredAt == nil
+//@   modifies *
+//@   ensures[expiry_reported_iff_set] (U_treasure_exp(treasureInterface) != 0) <==> (t.ExpiredAt != nil)
